@@ -27,6 +27,14 @@ def run(rep, tier):
     total = e1run.run(rep, CLASSES, tier, select=lambda f: f['rule'] not in ('S-span', 'S-binder'))
     for K, want in FLOORS.items():
         rep.floor(f'configurations of {K}', total.get(K, 0), want)
+    # "a list that cannot be completed has no effect on where the next alternative starts": List/Sep do not
+    # rewind themselves on failure - the enclosing choice does. The configurations of Choice/Longest/Opt with an
+    # alternative that can fail after consuming (what an incomplete list is) are part of this property.
+    rep.rule('G1-no-trace', 'Choice / Longest / Opt: after an alternative that failed having consumed input (an incomplete '
+                            'repetition), the next alternative - and the continuation - start where the choice started')
+    tc = e1run.run(rep, ['Choice', 'Longest', 'Opt'], tier,
+                   select=lambda f: f['rule'] in ('G1-no-trace', 'S-flow') and 'CP' in str(f.get('config', '')))
+    rep.floor('configurations of Choice', tc.get('Choice', 0), 100)
     from .. import mapping
     mapping.bound_spellings(rep)
     mapping.repeat_mapping(rep)
